@@ -227,21 +227,35 @@ func (am *AccountingManager) Stop() error {
 	am.logger.Info("Stopping accounting manager")
 
 	// Drain sessions if configured
+	var drained []*AccountingSession
 	if am.config.DrainOnShutdown {
-		am.drainAllSessions()
+		drained = am.drainAllSessions()
 	}
 
 	verifPoint("shutdown:drained")
-	// Persist pending records before shutdown
-	if err := am.persistPendingRecords(); err != nil {
-		am.logger.Warn("Failed to persist pending records", zap.Error(err))
-	}
-
-	verifPoint("shutdown:pending-persisted")
-	// Cancel context and wait for workers
+	// Stop the workers before the queue is written out: a record the queue
+	// processor delivers after the snapshot would be sent again on restart.
 	am.cancel()
 	am.wg.Wait()
 
+	// Persist pending records before shutdown
+	if err := am.persistPendingRecords(); err != nil {
+		am.logger.Warn("Failed to persist pending records", zap.Error(err))
+	} else {
+		// The Stop of every drained session has been acknowledged or is in
+		// pending.json now: the session is over, so its recovery file must go,
+		// otherwise the next start would send the Stop a second time.
+		am.sessionsMu.Lock()
+		for _, session := range drained {
+			delete(am.sessions, session.SessionID)
+		}
+		am.sessionsMu.Unlock()
+		for _, session := range drained {
+			am.removePersistedSession(session.SessionID)
+		}
+	}
+
+	verifPoint("shutdown:pending-persisted")
 	am.logger.Info("Accounting manager stopped")
 	return nil
 }
@@ -666,8 +680,9 @@ func (am *AccountingManager) retryPendingRecords() {
 	}
 }
 
-// drainAllSessions sends Accounting-Stop for all active sessions
-func (am *AccountingManager) drainAllSessions() {
+// drainAllSessions sends Accounting-Stop for all active sessions and returns
+// the sessions whose Stop was acknowledged or queued for retry.
+func (am *AccountingManager) drainAllSessions() []*AccountingSession {
 	am.logger.Info("Draining all sessions for shutdown")
 
 	am.sessionsMu.RLock()
@@ -682,11 +697,16 @@ func (am *AccountingManager) drainAllSessions() {
 	defer cancel()
 
 	var wg sync.WaitGroup
+	var handledMu sync.Mutex
+	var handled []*AccountingSession
 	for _, session := range sessions {
 		wg.Add(1)
 		go func(s *AccountingSession) {
 			defer wg.Done()
 			am.sendAccountingStopSync(ctx, s, TerminateCauseNASReboot)
+			handledMu.Lock()
+			handled = append(handled, s)
+			handledMu.Unlock()
 		}(session)
 	}
 
@@ -705,6 +725,10 @@ func (am *AccountingManager) drainAllSessions() {
 			zap.Int("total", len(sessions)),
 		)
 	}
+
+	handledMu.Lock()
+	defer handledMu.Unlock()
+	return append([]*AccountingSession(nil), handled...)
 }
 
 // sendAccountingStopSync sends an Accounting-Stop synchronously with the given context
